@@ -89,13 +89,17 @@ pub fn run(desc: &Value, ctx: &Ctx) -> CaseOut {
             let dc = DirCase::from_json(&case);
             observe(&dc, &mut out);
             match create_mem(&dc) {
+                Err(_) if jstr(&case, "expect") == "unrepresentable" => out.obs.inc("unrepresentable_inputs_refused(no file to decode)"),
                 Err(e) => out.inconclusive(format!("creation failed (C02's concern): {e}")),
                 Ok((inst, bytes)) => {
                     let v = indep::decode_file(&bytes);
                     out.obs.inc("files_decoded");
                     out.obs.add("bytes_decoded", v.len);
                     report_problems(&mut out, "directory pack", &v.problems);
-                    for d in compare_directory(&dc, &inst.models, &v) {
+                    // a store sorted on a deferred reference has no order the model can predict (C15/C03 judge it by
+                    // self-consistency): only the layout rules are judged here
+                    let predictable = jstr(&case, "mode") != "sort-on-ref";
+                    for d in compare_directory(&dc, &inst.models, &v).into_iter().filter(|_| predictable) {
                         out.violate(json!({"kind": "decoded-directory", "profile": profile()}), format!("C14: independent decoder: {d}"), json!({}));
                         if out.viols.len() > 5 {
                             break;
